@@ -43,13 +43,27 @@ template<class CT, class SetCT> static void equiv_case(const std::string &c, con
         { typename CT::params p2(strip(pt)); CT ct2(std::tie(n,A.ptr,A.col,A.val),p2); Out c2=run(ct2,f,x0); hx::require("compile-time params imported from the tree = params set field by field", same(b,c2)); }
     }, coo);
 }
+// preconditioner class "nested": a complete (preconditioner + solver) pair used as the preconditioner of an outer solver
+template<class OuterS> static void nested_case(const std::string &outer, const Pattern &p, hx::Rng &rng) { hx::CaseOptions coo; coo.max_paths=8; coo.max_depth=200; hx::run_case("equiv/nested(amg+cg)+"+outer+"/"+p.name, [&]() {
+    hx::Rng r2(rng.s); SCrs A=hx::mmatrix(p,r2); int n=p.n; ptree pt; pt.put("precond.class","nested"); pt.put("precond.precond.class","amg"); pt.put("precond.precond.coarsening.type","smoothed_aggregation"); pt.put("precond.precond.relax.type","spai0"); pt.put("precond.precond.coarse_enough",2);
+    pt.put("precond.solver.type","cg"); pt.put("precond.solver.maxiter",1); pt.put("solver.type",outer); pt.put("solver.maxiter",2);
+    unknown_params().clear(); RT rt(std::tie(n,A.ptr,A.col,A.val),pt); hx::require("nested: no parameter of a valid configuration is reported as unknown", unknown_params().empty(), unknown_params().empty() ? "" : *unknown_params().begin());
+    typedef amgcl::make_solver<amgcl::make_solver<amgcl::amg<BE,co::smoothed_aggregation,rx::spai0>,sv::cg<BE>>,OuterS> CT; typename CT::params prm; prm.precond.precond.coarse_enough=2; prm.precond.solver.maxiter=1; prm.solver.maxiter=2; CT ct(std::tie(n,A.ptr,A.col,A.val),prm);
+    std::vector<scalar> f=hx::sym_vector("f",n), x0=hx::sym_vector("x",n,0.25); Out a=run(rt,f,x0), b=run(ct,f,x0);
+    hx::require("run-time 'nested' preconditioner performs exactly the operations of the compile-time nested make_solver (bitwise identical x, iterations, residual)", same(a,b), a.threw?a.what:""); }, coo); }
 static scalar get(const std::vector<std::pair<std::string,scalar>> &v, const std::string &k, scalar dflt) { for (auto &kv : v) if (kv.first==k) return kv.second; return dflt; }
 
 // import followed by export is the identity on every value key; unknown keys are reported
 static std::string mutate(const std::string &key, const std::string &v) { if (key.size()>=3 && key.substr(key.size()-3)=="vec") return v; if (v=="true") return "false"; if (v=="false") return "true"; if (v=="left") return "right"; if (v=="right") return "left";
-    bool num=!v.empty(); for (char ch : v) if (!(isdigit(ch)||ch=='.'||ch=='e'||ch=='-'||ch=='+')) num=false; if (!num) return v; if (v.find_first_of(".e")==std::string::npos) return std::to_string(atol(v.c_str())+1); double d=atof(v.c_str()); std::ostringstream o; o<<(d*0.5+0.125); return o.str(); }
+    bool num=!v.empty(); for (char ch : v) if (!(isdigit(ch)||ch=='.'||ch=='e'||ch=='-'||ch=='+')) num=false; if (!num) return v;
+    // floating-point parameters whose default happens to print as an integer (ilut.p = 2, damping = 1, higher = 1, relax = 1 ...) get a FRACTIONAL non-default value
+    { static const std::set<std::string> floats{"p","higher","lower","damping","relax","tol","abstol","eps_strong","eps_trunc","tau","over_interp","delta","omega","eps"}; std::string leaf=key.substr(key.rfind('.')==std::string::npos?0:key.rfind('.')+1);
+      if (floats.count(leaf) && v.find_first_of(".e")==std::string::npos) { std::ostringstream o; o<<(atol(v.c_str())+0.5); return o.str(); } }
+    if (v.find_first_of(".e")==std::string::npos) return std::to_string(atol(v.c_str())+1); double d=atof(v.c_str()); std::ostringstream o; o<<(d*0.5+0.125); return o.str(); }
 static void leaves(const ptree &p, const std::string &path, std::vector<std::pair<std::string,std::string>> &out) { for (auto &kv : p) { std::string k = path.empty()? kv.first : path+"."+kv.first; if (kv.second.empty()) out.push_back({k,kv.second.data()}); else leaves(kv.second,k,out); } }
-static bool num_equal(const std::string &a, const std::string &b) { if (a==b) return true; char *e1,*e2; double x=strtod(a.c_str(),&e1), y=strtod(b.c_str(),&e2); return *e1==0 && *e2==0 && a.size() && b.size() && std::fabs(x-y)<=1e-6*std::max(1.0,std::fabs(x)); }
+// exported text -> number; the symbolic scalar prints non-integral constants as a handle <sR_N>, which its operator>> reads back
+static bool as_number(const std::string &t, double &x) { if (t.empty()) return false; if (t[0]=='<') { std::istringstream is(t); scalar v; is>>v; if (!is) return false; x=hx::to_double(v); return true; } char *e; x=strtod(t.c_str(),&e); return *e==0; }
+static bool num_equal(const std::string &a, const std::string &b) { if (a==b) return true; double x, y; return as_number(a,x) && as_number(b,y) && std::fabs(x-y)<=1e-6*std::max(1.0,std::fabs(x)); }
 template<class P> static void roundtrip_case(const std::string &name) { hx::run_case("roundtrip/"+name, [&]() {
     P dflt; ptree d; dflt.get(d,""); std::vector<std::pair<std::string,std::string>> lv; leaves(d,"",lv); hx::require("parameter export lists at least one key", !lv.empty()); hx::count("parameter keys",lv.size());
     ptree in; size_t changed=0; for (auto &kv : lv) { std::string m=mutate(kv.first,kv.second); if (m!=kv.second) changed++; in.put(kv.first,m); }
@@ -92,10 +106,11 @@ int main(int argc, char **argv) {
         equiv_case<RELAX_T(ilu0)>("smoothed_aggregation","ilu0","cg",p,rng,[&](auto &prm, auto &v){ st(prm,v); prm.precond.relax.damping=get(v,"precond.relax.damping",scalar(1)); },{{"solver.tol",tol},{"precond.relax.damping",var("rdamp",0.9)}},{});
         equiv_case<RELAX_T(iluk)>("smoothed_aggregation","iluk","cg",p,rng,[&](auto &prm, auto &v){ st(prm,v); prm.precond.relax.k=2; },S,{{"precond.relax.k","2"}});
         equiv_case<RELAX_T(ilup)>("smoothed_aggregation","ilup","cg",p,rng,[&](auto &prm, auto &v){ st(prm,v); prm.precond.relax.k=1; },S,{{"precond.relax.k","1"}});
-        equiv_case<RELAX_T(ilut)>("smoothed_aggregation","ilut","cg",p,rng,[&](auto &prm, auto &v){ st(prm,v); prm.precond.relax.p=scalar(3); },S,{{"precond.relax.p","3"}});
+        equiv_case<RELAX_T(ilut)>("smoothed_aggregation","ilut","cg",p,rng,[&](auto &prm, auto &v){ st(prm,v); prm.precond.relax.p=scalar(2.5); },S,{{"precond.relax.p","2.5"}});   /* a FRACTIONAL fill factor */
         equiv_case<RELAX_T(chebyshev)>("smoothed_aggregation","chebyshev","cg",p,rng,[&](auto &prm, auto &v){ st(prm,v); prm.precond.relax.degree=2; },S,{{"precond.relax.degree","2"}});
         equiv_case<RELAX_T(spai1)>("smoothed_aggregation","spai1","cg",hx::band_pattern(4,1),rng,st,S,{});
     }
+    { Pattern pn=hx::grid_pattern(3,2); nested_case<sv::bicgstab<BE>>("bicgstab",pn,rng); /* gmres as the outer solver needs 3 GB for the same obligation */ }
     // parameter structures: import o export = identity, unknown keys reported
     roundtrip_case<sv::cg<BE>::params>("solver.cg"); roundtrip_case<sv::bicgstab<BE>::params>("solver.bicgstab"); roundtrip_case<sv::bicgstabl<BE>::params>("solver.bicgstabl"); roundtrip_case<sv::gmres<BE>::params>("solver.gmres"); roundtrip_case<sv::fgmres<BE>::params>("solver.fgmres"); roundtrip_case<sv::lgmres<BE>::params>("solver.lgmres"); roundtrip_case<sv::idrs<BE>::params>("solver.idrs"); roundtrip_case<sv::richardson<BE>::params>("solver.richardson");
     roundtrip_case<rx::damped_jacobi<BE>::params>("relax.damped_jacobi"); roundtrip_case<rx::gauss_seidel<BE>::params>("relax.gauss_seidel"); roundtrip_case<rx::ilu0<BE>::params>("relax.ilu0"); roundtrip_case<rx::iluk<BE>::params>("relax.iluk"); roundtrip_case<rx::ilup<BE>::params>("relax.ilup"); roundtrip_case<rx::ilut<BE>::params>("relax.ilut"); roundtrip_case<rx::chebyshev<BE>::params>("relax.chebyshev");
